@@ -347,6 +347,59 @@ Definition multiframe_geometry (ps : list vec3) (rowc colc : vec3) (hint : optio
       end
   end.
 
+(* ---------- one multi-frame object asked several questions (history) ---------------------------- *)
+(* The frame table of an Image / Segmentation is fixed at construction; every public query
+   (get_volume_geometry, get_volume) reads it afresh: _get_stacked_volume_geometry selects the frame
+   positions and calls get_volume_positions with the tolerances and declarations of THIS call, nothing
+   is remembered between calls.  The model of an object is therefore its frame table and the answer to
+   a list of queries is the list of the answers (no state is threaded).
+   Frames are in frame-number order (frame f = f-th entry, f = 1..n); chans = channel of every frame
+   (ReferencedSegmentNumber for a Segmentation, 0 for an Image); outch = channels of the assembled
+   array (the described segment numbers; [0] for an Image). *)
+Inductive mf_query :=
+| QGeom (rtol atol : option Q) (om od : option bool)     (* get_volume_geometry(rtol, atol, allow_missing_positions, allow_duplicate_positions) *)
+| QVol (rtol atol : option Q) (om : option bool).        (* get_volume(rtol, atol, allow_missing_positions) *)
+
+(* _get_stacked_volume_geometry: geometry + volume position of every frame; an unrecognised stack raises *)
+Definition stacked_geometry (ps : list vec3) (rowc colc : vec3) (hint : option Q)
+           (rtol atol : option Q) (missing dups : bool) : res (geom * list Z) :=
+  match get_volume_positions ps rowc colc (vol_opts rtol atol missing dups hint) with
+  | Err k => Err k
+  | Ok None => Err "RuntimeError"
+  | Ok (Some (sp, idx)) =>
+      match zindex 0%Z idx with
+      | None => Err "ValueError"
+      | Some j0 => Ok (mkGeom (zmax_list idx + 1)%Z sp (nthV ps j0) (cross colc rowc), idx)
+      end
+  end.
+
+(* _do_columns_identify_unique_frames on (position [, segment number]) *)
+Fixpoint pmem (c : Z) (p : vec3) (l : list (Z * vec3)) : bool :=
+  match l with [] => false | (c', p') :: l' => (Z.eqb c c' && veqb p p') || pmem c p l' end.
+Fixpoint pairs_unique (l : list (Z * vec3)) : bool :=
+  match l with [] => true | (c, p) :: l' => negb (pmem c p l') && pairs_unique l' end.
+Fixpoint find_slot2 (k c : Z) (idx chans ids : list Z) : option Z :=
+  match idx, chans, ids with
+  | i :: idx', ch :: chans', f :: ids' =>
+      if Z.eqb i k && Z.eqb ch c then Some f else find_slot2 k c idx' chans' ids'
+  | _, _, _ => None
+  end.
+(* Image.get_volume / Segmentation.get_volume (stacked branch): uniqueness check, then
+   _prepare_volume_positions_table -> _get_stacked_volume_geometry with the tolerances and the gaps
+   declaration of the call (default of the class when not passed) and duplicates allowed; result =
+   geometry + for every slice and output channel the frame placed there *)
+Definition channel_volume (chans outch : list Z) (ps : list vec3) (rowc colc : vec3) (hint : option Q)
+           (rtol atol : option Q) (seg : bool) (om : option bool)
+  : res (geom * list (list (option Z))) :=
+  if negb (pairs_unique (combine chans ps)) then Err "RuntimeError" else
+  match stacked_geometry ps rowc colc hint rtol atol (eff_missing seg om) true with
+  | Err k => Err k
+  | Ok (g, idx) =>
+      let ids := map Z.of_nat (seq 1 (length ps)) in
+      Ok (g, map (fun k => map (fun c => find_slot2 (Z.of_nat k) c idx chans ids) outch)
+                 (seq 0 (Z.to_nat (g_nsl g))))
+  end.
+
 (* ---------- boundary functions --------------------------------------------------------------- *)
 Definition vvec (v : vec3) : val := VL [VQ (vx v); VQ (vy v); VQ (vz v)].
 Definition vresult (r : res (option (Q * list Z))) : val :=
@@ -373,3 +426,15 @@ Definition run_mf_geometry ps rowc colc hint rtol atol seg om od : val :=
   vres (vopt (fun g => VL [VZ (g_nsl g); VQ (g_spacing g); vvec (g_origin g);
                            vvec (vscale (g_spacing g) (g_normal g))]))
        (multiframe_geometry ps rowc colc hint rtol atol seg om od).
+(* answers of ONE object to a list of queries, in the order asked *)
+Definition vgeom (g : geom) : list val :=
+  [VZ (g_nsl g); VQ (g_spacing g); vvec (g_origin g); vvec (vscale (g_spacing g) (g_normal g))].
+Definition answer_query chans outch ps rowc colc hint (seg : bool) (q : mf_query) : val :=
+  match q with
+  | QGeom rtol atol om od => run_mf_geometry ps rowc colc hint rtol atol seg om od
+  | QVol rtol atol om =>
+      vres (fun r => VL (vgeom (fst r) ++ [VL (map (fun row => VL (map (vopt VZ) row)) (snd r))]))
+           (channel_volume chans outch ps rowc colc hint rtol atol seg om)
+  end.
+Definition run_mf_history chans outch ps rowc colc hint seg (qs : list mf_query) : val :=
+  VL (map (answer_query chans outch ps rowc colc hint seg) qs).
